@@ -67,6 +67,7 @@ func (e *Enc) call(st *State, c *ssa.CallCommon, ins ssa.Instruction, deferred b
 		argTypes = append(argTypes, a.Type())
 	}
 	ct, key := e.calleeContract(c)
+	e.callSiteClauses(st, c, key, args, argTypes, ins)
 	if op := lockOp(key); op != "" {
 		e.lockCall(st, op, c, ins)
 		return Val{}
@@ -645,7 +646,11 @@ func (e *Enc) builtin(st *State, b *ssa.Builtin, c *ssa.CallCommon, ins ssa.Inst
 		return Val{}
 	case "recover":
 		e.declIface()
-		return tv(e.fresh("recovered", SInt))
+		r := e.fresh("recovered", SInt)
+		if e.hasGhost("panicking") {
+			e.assume(st.reach, Eq(Not(Eq(r, I(0))), e.comp(st, "X:panicking", SBool)))
+		}
+		return tv(r)
 	case "ssa:wrapnilchk":
 		x := e.val(st, c.Args[0])
 		e.oblige("nil", "wrapnilchk", ap, st.reach, Not(Eq(x.T, I(0))), "nil receiver in method wrapper", ins.Pos())
@@ -773,4 +778,43 @@ func (e *Enc) goStmt(st *State, ins *ssa.Go) {
 		goal = TTrue
 	}
 	e.oblige("spawn", calleeShort(key), e.autoProps(), st.reach, goal, "goroutine started on "+key+" must not be able to panic (no recover in a bare goroutine)", ins.Pos())
+}
+
+// callSiteClauses: assertions of the function's own contract attached to this call (by callee and ordinal).
+func (e *Enc) callSiteClauses(st *State, c *ssa.CallCommon, key string, args []Val, argTypes []types.Type, ins ssa.Instruction) {
+	if e.c == nil || len(e.c.CallSites) == 0 {
+		return
+	}
+	if e.callOrd == nil {
+		e.callOrd = map[string]int{}
+	}
+	for i, cs := range e.c.CallSites {
+		if !strings.HasSuffix(key, cs.Callee) {
+			continue
+		}
+		ordKey := fmt.Sprintf("%d", i)
+		k := e.callOrd[ordKey]
+		e.callOrd[ordKey] = k + 1
+		if cs.Ordinal >= 0 && cs.Ordinal != k {
+			continue
+		}
+		sc := e.specCtx(st, e.pre)
+		sc.preferLocals = true
+		// the callee's arguments are available as arg0, arg1, ...
+		for j, a := range args {
+			n := fmt.Sprintf("arg%d", j)
+			sc.vars[n] = a
+			sc.vtypes[n] = argTypes[j]
+		}
+		t, err := sc.evalBool(cs.Clause.Expr)
+		if err != nil {
+			e.unsupported = fmt.Sprintf("callsite %s: %v", cs.Callee, err)
+			return
+		}
+		anchor := cs.Clause.Label
+		if anchor == "" {
+			anchor = calleeShort(key)
+		}
+		e.oblige("ghost", anchor, clauseProps(cs.Clause, e.autoProps()), st.reach, t, "at call of "+key+": "+cs.Clause.Text, ins.Pos())
+	}
 }
